@@ -50,7 +50,9 @@ class EventSnapshot:
 
     def complete(self):
         """Close and complete the snapshot."""
-        self._duration_nanos = time_ns() - self._ts_nanos
+        # the wall clock can step back between the hit and now: a negative duration does not fit the wire format, and
+        # the whole snapshot would be dropped
+        self._duration_nanos = max(0, time_ns() - self._ts_nanos)
 
     def add_watch_result(self, watch_result: 'WatchResult'):
         """
